@@ -366,6 +366,26 @@ class Contentline(str):
             raise ValueError(
                 f"Content line could not be parsed into parts: '{self}': {exc}")
 
+    def raw_value(self):
+        """The value text exactly as written, with its backslash escapes.
+
+        TEXT values undo their own escaping, so they must not be given the
+        value that parts() has already unescaped.
+        """
+        in_quotes = False
+        i = 0
+        while i < len(self):
+            ch = self[i]
+            if ch == '\\' and self[i + 1:i + 2] in (',', ':', ';', '\\'):
+                i += 2
+                continue
+            if ch == ':' and not in_quotes:
+                return self[i + 1:]
+            if ch == '"':
+                in_quotes = not in_quotes
+            i += 1
+        return ''
+
     @classmethod
     def from_ical(cls, ical, strict=False):
         """Unfold the content lines in an iCalendar into long content lines.
